@@ -8,8 +8,8 @@
 //	d <k,k,..> <min> <max>       Shard.DeleteSeriesRange (inclusive range)
 //	snap                         Engine.WriteSnapshot (cache -> new TSM file)
 //	compact                      full compaction of all TSM files (engine's own strategy)
-//	age <sec>                    os.Chtimes every "fresh" file (mtime after 2001) of the shard dir to <sec>
-//	backup <id> <since-sec|->    Store.BackupShard into archive <id> (- = zero time)
+//	age <ns>                     os.Chtimes every "fresh" file (mtime after 2001) of the shard dir to <ns> nanoseconds after the epoch
+//	backup <id> <since-ns|->     Store.BackupShard into archive <id> (since in ns after the epoch; - = zero time)
 //	export <id> <start> <end>    Store.ExportShard [start,end] ns into archive <id>
 //	restore <id>[,<id>..]        fresh store+shard, Store.RestoreShard each archive in turn, dump
 //	import <id>[,<id>..]         fresh store+shard, Store.ImportShard each archive in turn, dump
@@ -41,8 +41,9 @@ import (
 )
 
 const (
-	nKeys      = 6 // universe of series k0..k5
-	freshAfter = 1_000_000_000
+	nKeys = 6 // universe of series k0..k5
+	// mtimes are nanoseconds since the epoch; anything after 2001-09-09 is "fresh"
+	freshAfter = int64(1_000_000_000) * 1_000_000_000
 )
 
 type store struct {
@@ -321,8 +322,8 @@ func listFiles(dir string) string {
 			continue
 		}
 		mt := "F"
-		if fi.ModTime().Unix() < freshAfter {
-			mt = strconv.FormatInt(fi.ModTime().Unix(), 10)
+		if fi.ModTime().UnixNano() < freshAfter {
+			mt = strconv.FormatInt(fi.ModTime().UnixNano(), 10)
 		}
 		out = append(out, shortName(n)+"@"+mt)
 	}
@@ -445,8 +446,8 @@ func (r *runner) Op(t []string) string {
 			if err != nil || e.IsDir() {
 				continue
 			}
-			if fi.ModTime().Unix() >= freshAfter {
-				tm := time.Unix(sec, 0)
+			if fi.ModTime().UnixNano() >= freshAfter {
+				tm := time.Unix(0, sec)
 				if err := os.Chtimes(filepath.Join(dir, e.Name()), tm, tm); err != nil {
 					return "harness-error"
 				}
@@ -459,7 +460,7 @@ func (r *runner) Op(t []string) string {
 		}
 		var since time.Time
 		if t[2] != "-" {
-			since = time.Unix(h.Atoi(t[2]), 0)
+			since = time.Unix(0, h.Atoi(t[2]))
 		}
 		var buf bytes.Buffer
 		if err := r.src.st.BackupShard(1, since, &buf); err != nil {
@@ -571,6 +572,11 @@ func gen(r *h.Rand, tier string, emit func([]string)) {
 			emit(genSmall(r))
 		}
 	}
+	// files and `since` inside one wall-clock second: file at S+0.1 s, since S+0.2 s, file at
+	// S+0.7 s; since exactly an mtime, and one nanosecond either side
+	emit([]string{"w 0 1 1 5 10", "snap", "age 100100000000", "w 1 1 1 5 20", "snap", "age 100700000000",
+		"backup f -", "backup i 100200000000", "restore f,i", "backup e 100700000000", "backup m 100699999999",
+		"backup p 100700000001", "d 0 2 3", "age 100900000000", "backup t 100800000000", "backup u 100900000000"})
 	// a malformed stream: every line must be answered bad-op / no-archive
 	emit([]string{"w 9 1 1 3 0", "w 0 1 1 0 0", "d 7 1 2", "age -1", "restore zz", "import zz", "frob", "w 0 1 1", "backup a,b -", "dump"})
 }
@@ -610,7 +616,9 @@ func genSmall(r *h.Rand) []string {
 	var ops []string
 	maxK := 2 + r.Intn(3)
 	ids := 0
-	clock := int64(100)
+	// explicit mtimes / `since` values in nanoseconds: sub-second steps, so that files and
+	// `since` share a wall-clock second (time.Time.After is a nanosecond comparison)
+	clock := int64(100_000_000_000) + r.Range(0, 3)*250_000_000
 	var fulls, incrs []string
 	steps := 6 + r.Intn(14)
 	for i := 0; i < steps; i++ {
@@ -625,7 +633,7 @@ func genSmall(r *h.Rand) []string {
 		case x < 62:
 			ops = append(ops, "compact")
 		case x < 72:
-			clock += r.Range(0, 2)
+			clock += h.Pick(r, []int64{0, 1, 100_000_000, 300_000_000, 500_000_000, 999_999_999, 1_000_000_000})
 			ops = append(ops, fmt.Sprintf("age %d", clock))
 		case x < 84:
 			id := fmt.Sprintf("b%d", ids)
@@ -641,7 +649,7 @@ func genSmall(r *h.Rand) []string {
 		case x < 94:
 			id := fmt.Sprintf("i%d", ids)
 			ids++
-			since := clock + r.Range(-2, 1)
+			since := clock + h.Pick(r, []int64{-1_000_000_001, -600_000_000, -300_000_000, -100_000_000, -1, 0, 1, 200_000_000})
 			ops = append(ops, fmt.Sprintf("backup %s %d", id, since))
 			incrs = append(incrs, id)
 			if len(fulls) > 0 && r.Chance(0.8) {
@@ -710,7 +718,7 @@ func genBig(r *h.Rand) []string {
 		id := fmt.Sprintf("e%d", i)
 		ops = append(ops, fmt.Sprintf("export %s %d %d", id, a, e), "import "+id)
 	}
-	ops = append(ops, "backup b -", "restore b", "age 100", fmt.Sprintf("w 0 3000 1 %d 1", r.Range(1, 20)), "backup i 100", "restore b,i")
+	ops = append(ops, "backup b -", "restore b", "age 100100000000", fmt.Sprintf("w 0 3000 1 %d 1", r.Range(1, 20)), "backup i 100100000000", "restore b,i")
 	return ops
 }
 
